@@ -6,6 +6,7 @@ package main
 
 import (
 	"fmt"
+	"math"
 	"go/token"
 	"go/types"
 	"strconv"
@@ -246,6 +247,10 @@ func init() {
 			return truth(call(nil, token.NoPos, f, nil), "verifBlockUntil")
 		}, "verifBlockUntil in "+shortName(callerName(fr)))
 		return nil
+	}
+	verifIntrinsics["verifMutexHeld"] = func(fr *frame, args []value) value {
+		w, _ := R.mutexHeld(args[0].(iface).v.(*value))
+		return w
 	}
 	verifIntrinsics["verifLog"] = func(fr *frame, args []value) value {
 		R.ghost = append(R.ghost, toGoString(args[0]))
@@ -657,6 +662,10 @@ func init() {
 	intrinsics["internal/stringslite.Clone"] = func(fr *frame, a []value) value { return a[0] }
 	intrinsics["internal/abi.NoEscape"] = func(fr *frame, a []value) value { return a[0] }
 	intrinsics["internal/race.Enabled"] = func(fr *frame, a []value) value { return false }
+	intrinsics["math.Float64frombits"] = func(fr *frame, a []value) value { return math.Float64frombits(uint64(concInt(a[0], "float"))) }
+	intrinsics["math.Float64bits"] = func(fr *frame, a []value) value { return math.Float64bits(a[0].(float64)) }
+	intrinsics["math.Float32frombits"] = func(fr *frame, a []value) value { return math.Float32frombits(uint32(concInt(a[0], "float"))) }
+	intrinsics["math.Float32bits"] = func(fr *frame, a []value) value { return math.Float32bits(a[0].(float32)) }
 	intrinsics["os.Getenv"] = func(fr *frame, a []value) value { return "" }
 	intrinsics["os.LookupEnv"] = func(fr *frame, a []value) value { return tuple{"", false} }
 }
